@@ -140,29 +140,43 @@ def run_check(pid, tier, seed, replay=None, jobs=None):
                 chosen.append(v)
                 covered |= ks
         rest = [v for v in violations if not any(v is c for c in chosen)]
-        violations = chosen[:jobs] + chosen[jobs:] + rest
+        violations = chosen + rest
+
+        def confirm_batch(batch, tag):
+            with ProcessPoolExecutor(max_workers=jobs) as ex:
+                futs = {ex.submit(_exec_one, pid, dict(sc, confirm_hint=r.get("confirm_hint")), os.path.join(work, "confirm%s%d" % (tag, i)), True): (sc, r, vbad)
+                        for i, (sc, r, vbad) in enumerate(batch)}
+                for fu in as_completed(futs):
+                    sc, r, vbad = futs[fu]
+                    r2 = fu.result()
+                    if r2["error"]:
+                        machinery.append("stock-simulator confirmation of %s failed: %s" % (sc["name"], r2["error"]))
+                        continue
+                    keys2 = {(keyf(e, sc) if keyf else default_key(e)) for e in r2["bad"]}
+                    if any(k in keys2 for k, _ in vbad):
+                        confirmed.append((sc, r, vbad))
+                    else:
+                        unrepro.append(sc["name"])
+        unrepro = []
         nconf = min(len(chosen), jobs)
-        with ProcessPoolExecutor(max_workers=jobs) as ex:
-            futs = {ex.submit(_exec_one, pid, dict(sc, confirm_hint=r.get("confirm_hint")), os.path.join(work, "confirm%d" % i), True): (sc, r, vbad)
-                    for i, (sc, r, vbad) in enumerate(violations[:nconf])}
-            for fu in as_completed(futs):
-                sc, r, vbad = futs[fu]
-                r2 = fu.result()
-                if r2["error"]:
-                    machinery.append("stock-simulator confirmation of %s failed: %s" % (sc["name"], r2["error"]))
-                    continue
-                keys2 = {(keyf(e, sc) if keyf else default_key(e)) for e in r2["bad"]}
-                if any(k in keys2 for k, _ in vbad):
+        confirm_batch(violations[:nconf], "a")
+        if not confirmed and len(violations) > nconf:
+            # a property module may evaluate only part of a scenario on the slow interpreter: try further scenarios before giving up
+            more = violations[nconf:nconf + jobs]
+            confirm_batch(more, "b")
+            nconf += len(more)
+        done_names = {sc["name"] for sc, _, _ in confirmed} | set(unrepro)
+        if confirmed:
+            # the accelerated evaluator is not what produces the alarm: list every violating scenario
+            for sc, r, vbad in violations:
+                if sc["name"] not in {c[0]["name"] for c in confirmed}:
                     confirmed.append((sc, r, vbad))
-                else:
-                    machinery.append("violation in %s not reproduced on the stock simulator (fastsim divergence)" % sc["name"])
-        # scenarios beyond the confirmation budget: reported when the same clause was confirmed on the stock simulator elsewhere
-        ckeys = {k for _, _, vb in confirmed for k, _ in vb}
-        for sc, r, vbad in violations[nconf:]:
-            if any(k in ckeys for k, _ in vbad):
-                confirmed.append((sc, r, vbad))
-            else:
-                machinery.append("violation in %s not confirmed on the stock simulator (confirmation budget exhausted)" % sc["name"])
+        else:
+            for name in unrepro:
+                machinery.append("violation in %s not reproduced on the stock simulator (fastsim divergence)" % name)
+            for sc, r, vbad in violations:
+                if sc["name"] not in done_names:
+                    machinery.append("violation in %s not confirmed on the stock simulator" % sc["name"])
     else:
         confirmed = violations
     # report
